@@ -125,7 +125,7 @@ func cmdVerify(args []string) {
 			obls = append(obls, o)
 		}
 	}
-	solveAll(obls, *work, *timeout, false, 16)
+	solveAll(obls, *work, *timeout, false, numWorkers())
 	bad := 0
 	for _, o := range obls {
 		r := o.Result
